@@ -20,6 +20,11 @@
    licenses are where the work is (C05_parse_results_are_renderable): an unknown license is a run of words that Trie.tokenize
    left unmatched, standing between two operator words; were a stored name to occur among them, the longest, leftmost such
    occurrence would have survived the overlap filter (fo_keeps_dominant_tie) and been a token of its own.
+   (0'') C05_round_trip_over_plain_tables: the premise on the table follows from three plain conditions - every key is what
+   LicenseSymbol() makes of it (true of every table Licensing() builds), no key or alias has an operator word or a parenthesis
+   among its words, and no two names of different licenses (or a license and an operator) have the same lower-cased words
+   (what validate_symbols demands).  Under these, with no premise on the expression: whatever text parses to e, the plain
+   and the readable rendering of e parse back to e, and so does every well-formed expression made of the licenses of e.
    (1) the token sequence of the rendering - licenses, AND / OR, and a pair of parentheses around every
    compound operand, WITH pairs optionally in parentheses as render_as_readable writes them - is
    parsed back to e by the boolean parser, whatever the token strings and positions; (2) the rendered
@@ -35,7 +40,7 @@
    lower-case to themselves. *)
 Require Import Model.Split Model.Trie Model.Licensing.
 Require Import Model.Base Model.Expr Model.Split Model.LicTok Model.BoolParse Proofs.BoolParse Proofs.Render.
-Require Import Proofs.Kinds Proofs.RenderKinds Proofs.RenderWords Proofs.Resplit Proofs.Reparse Proofs.ParseWf Proofs.ParseRenderable.
+Require Import Proofs.Kinds Proofs.RenderKinds Proofs.RenderWords Proofs.Resplit Proofs.Reparse Proofs.ParseWf Proofs.ParseRenderable Proofs.TableOk.
 
 Theorem C05_render_tokens_roundtrip : forall i0 wrap e, wf e = true ->
   bparse (tok_or (to_or i0 wrap e)) = POk e.
@@ -214,4 +219,41 @@ Proof.
   - intros c Hc. simpl in Hc. repeat (destruct Hc as [<-|Hc]; [split; reflexivity|]). destruct Hc.
   - intros n v Hin. vm_compute in Hin. repeat (destruct Hin as [Hin|Hin]; [inversion Hin; subst n v; nokw5|]). destruct Hin.
   - exact table5_ok.
+Qed.
+
+Theorem C05_round_trip_over_plain_tables : forall O, is_space O 32%N = true ->
+  (forall c, In c [65; 78; 68; 79; 82; 87; 73; 84; 72; 40; 41]%N -> is_space O c = false) ->
+  (lower O S_AND = s_and /\ lower O S_OR = s_or /\ lower O S_WITH = s_with /\ lower O s_lpar = s_lpar /\ lower O s_rpar = s_rpar) ->
+  (forall c, In c [97; 110; 100; 111; 114; 119; 105; 116; 104; 40; 41]%N -> is_space O c = false /\ lower_ch O c = [c]) ->
+  (is_wordch O 40%N = false /\ is_wordch O 41%N = false) ->
+  forall T : list entry,
+  (forall n v, In (n, v) (flat_map (entry_adds O) T) -> forall w, In w (lwords O n) -> is_keyword_str w = false) ->
+  (forall e, In e T -> mk_key O (ekey e) = Ok (ekey e)) ->
+  (forall n1 v1 n2 v2, In (n1, v1) (keyword_adds ++ flat_map (entry_adds O) T) -> In (n2, v2) (keyword_adds ++ flat_map (entry_adds O) T) ->
+     lwords O n1 = lwords O n2 -> v1 = v2) ->
+  forall text wrap e, parse_tokens O T false false text = Ok e ->
+  parse_tokens O T false false (render_with key wrap e) = Ok e /\
+  forall e', wf e' = true -> incl (literals e') (literals e) -> parse_tokens O T false false (render_with key wrap e') = Ok e'.
+Proof.
+  intros O H1 H2 H3 H4 H5 T H6 H7 H8 text wrap e Hp. split.
+  - exact (plain_table_round_trip O H1 H2 H3 H4 H5 T H6 H7 H8 text wrap e Hp).
+  - intros e' W I. exact (plain_table_round_trip_derived O H1 H2 H3 H4 H5 T H6 H7 H8 text wrap e e' Hp W I).
+Qed.
+Print Assumptions C05_round_trip_over_plain_tables.
+
+(* non-vacuity: the table T5 meets the three conditions *)
+Example C05_example_plain_table : forall wrap e, parse_tokens ascii_oracle T5 false false tx5 = Ok e ->
+  parse_tokens ascii_oracle T5 false false (render_with key wrap e) = Ok e.
+Proof.
+  intros wrap e Hp. apply (C05_round_trip_over_plain_tables ascii_oracle eq_refl) with (text := tx5); try exact Hp.
+  - intros c Hc. simpl in Hc. repeat (destruct Hc as [<-|Hc]; [reflexivity|]). destruct Hc.
+  - repeat split; reflexivity.
+  - intros c Hc. simpl in Hc. repeat (destruct Hc as [<-|Hc]; [split; reflexivity|]). destruct Hc.
+  - split; reflexivity.
+  - intros n v Hin. vm_compute in Hin. repeat (destruct Hin as [Hin|Hin]; [inversion Hin; subst n v; nokw5|]). destruct Hin.
+  - intros x Hx. simpl in Hx. repeat (destruct Hx as [<-|Hx]; [vm_compute; reflexivity|]). destruct Hx.
+  - intros n1 v1 n2 v2 Hi1 Hi2 E. vm_compute in Hi1, Hi2.
+    repeat (destruct Hi1 as [Hi1|Hi1];
+            [inversion Hi1; subst n1 v1; repeat (destruct Hi2 as [Hi2|Hi2]; [inversion Hi2; subst n2 v2; first [reflexivity | vm_compute in E; discriminate E]|]); destruct Hi2|]).
+    destruct Hi1.
 Qed.
